@@ -696,12 +696,24 @@ def literal_problems(src):
         ti = toks.get((n.lineno, n.col_offset))
         tok = tlist[ti] if ti is not None else None
         own = tok.string if tok else None
-        if tok is not None and ty in ("Int", "Decimal") and tok.string == "-":   # folded unary minus: "-", ..., NUMBER
-            j = ti
-            while j < len(tlist) and tlist[j].string == "-":
+        if tok is not None and ty in ("Int", "Decimal") and tok.string in ("-", "+"):
+            # folded unary signs, "-(-1)": the tokens from here on are signs / parentheses around exactly one NUMBER
+            j, depth, num = ti, 0, None
+            while j < len(tlist) and tlist[j].start[0] == tok.start[0]:
+                z = tlist[j]
+                if z.type == pytok.NUMBER and num is None:
+                    num = z
+                elif z.string == "(" and num is None:
+                    depth += 1
+                elif z.string == ")" and num is not None and depth > 0:
+                    depth -= 1
+                elif not (z.string in ("-", "+") and num is None):
+                    break
                 j += 1
-            if j < len(tlist) and tlist[j].type == pytok.NUMBER and tlist[j].start[0] == tok.start[0]:
-                own = tok.line[tok.start[1]:tlist[j].end[1]]
+                if num is not None and depth == 0:
+                    break
+            if num is not None and depth == 0:
+                own = tok.line[tok.start[1]:tlist[j - 1].end[1]]
         try:
             if ty == "Int":
                 ok = int(signed_eval(text, int)) == n.value
@@ -853,7 +865,9 @@ def part_preparse(ctx):
         pp_texts = []
         for name, src in texts:
             got = pre_parser_input(src)
-            if got is not None and got != spec_norm(src):
+            nobom = src[1:] if src[:1] == "\ufeff" else src
+            allowed = (src, nobom, re.sub(r"\r(?!\n)", "\n", src), spec_norm(src))
+            if got is not None and got not in allowed:
                 i = next((k for k, (a, c) in enumerate(zip(got, spec_norm(src))) if a != c), min(len(got), len(spec_norm(src))))
                 failing("C20:normalisation", "parse_to_ast hands the pre-parser a text that is not the source up to BOM / lone CR "
                         f"(first difference at offset {i}: {got[i:i + 12]!r} vs {spec_norm(src)[i:i + 12]!r})",
